@@ -38,6 +38,18 @@ Print Assumptions C05_begin_block_never_panics.
 
 (* An external event applied by the EndBlocker either succeeds or leaves pool, batches, balances and
    supply untouched: a malformed or malicious deposit / claim fails on its own. *)
+(* The EndBlocker of the bridge module always completes: the tally applies claims on cache contexts and survives their
+   errors and panics (below), and -- after the fix that lets a panicking expiry refund fail on its own -- the expiry
+   refunds cannot make it fail either, whatever the pool, the balances, the supply (the bank panics on a mint beyond
+   2^256-1) and the token list are. *)
+Theorem C05_end_block_never_fails :
+  (forall s, exists s', end_block s = Ok s') /\ (forall s, snd (step s OpEndBlock) = 0%N).
+Proof.
+  split; [exact end_block_never_fails|].
+  intro s. cbn [step]. destruct (end_block_never_fails s) as [s' E]. rewrite E. reflexivity.
+Qed.
+Print Assumptions C05_end_block_never_fails.
+
 Theorem C05_event_fails_on_its_own :
   forall s chain e,
     let (s', code) := apply_event s chain e in
